@@ -80,8 +80,9 @@ pub fn c01_histories(out: &str, thorough: bool, seed: u64) {
         ShapeSpec::Trimer(0.2, 180., 3.),
         ShapeSpec::Trimer(0.1, 180., 5.),
         ShapeSpec::Trimer(0.3, 150., 2.),
+        ShapeSpec::Trimer(0.2, 120., 1.),
     ];
-    let count = if thorough { 420 } else { 56 };
+    let count = if thorough { 462 } else { 77 };
     let steps = if thorough { 4000 } else { 1200 };
     let mut histories = 0usize;
     let mut scored = 0usize;
